@@ -65,8 +65,9 @@ const rnsBig = "9223372036854775808ubig"
 func (s RNS) Config() world.Config {
 	big, _ := sdk.NewIntFromString("40000000000000000000")
 	return world.Config{
-		Accounts: []string{"A", "B", "C"},
-		Balances: map[string]sdk.Coins{"A": world.DefaultBalance().Add(sdk.NewCoin("ubig", big))},
+		Accounts: []string{"A", "B", "C", "P"},
+		// P cannot afford any name
+		Balances: map[string]sdk.Coins{"A": world.DefaultBalance().Add(sdk.NewCoin("ubig", big)), "P": sdk.NewCoins(sdk.NewInt64Coin("ujkl", 3))},
 		GenesisMod: func(cdc codec.JSONCodec, gs app.GenesisState) {
 			var g rnstypes.GenesisState
 			cdc.MustUnmarshalJSON(gs[rnstypes.ModuleName], &g)
@@ -125,6 +126,7 @@ func (s RNS) Events(env world.Env, mm mc.Model) []string {
 				add("BidFail:%s:%s:7ujkl", x, n) // one transaction: this bid, then a message that fails
 				if x == "A" {
 					add("Bid:%s:%s:%s", x, n, rnsBig)
+					add("Bid:%s:%s:30000000ujkl", x, n) // an escrow larger than the price of a name
 				}
 			}
 			add("Cancel:%s:%s", x, n)
@@ -151,6 +153,12 @@ func (s RNS) Events(env world.Env, mm mc.Model) []string {
 		} else {
 			add("Init:%s:-", x)
 			add("Register:%s:Alpha.jkl", x)
+			// a record of alpha.jkl labelled like the other name, then messages addressed to the record's dotted path
+			add("AddRecordNamed:%s:alpha.jkl", x)
+			add("Update:%s:exp.alpha.jkl", x)
+			for _, y := range others(x) {
+				add("Transfer:%s:exp.alpha.jkl:%s", x, y)
+			}
 			add("Register:%s:al pha.jkl", x) // a space inside the label
 			add("Register:%s:e xp.jkl", x)
 			add("List:%s:Exp.jkl:5ujkl", x)
@@ -159,6 +167,11 @@ func (s RNS) Events(env world.Env, mm mc.Model) []string {
 			for _, y := range others(x) {
 				add("Transfer:%s:Exp.jkl:%s", x, y)
 			}
+		}
+	}
+	if s.Prop == "C09" {
+		for _, n := range rnsNames {
+			add("Register:P:%s", n) // by an account that cannot pay for it
 		}
 	}
 	if m.Blocks < rnsMaxBlocks {
@@ -229,6 +242,8 @@ func (s RNS) msgFor(w *world.World, p []string) sdk.Msg {
 		return rnstypes.NewMsgUpdate(x, p[2], `{"upd":"`+p[1]+`"}`)
 	case "AddRecord":
 		return rnstypes.NewMsgAddRecord(x, p[2], "sub", x, `{"rec":"`+p[1]+`"}`)
+	case "AddRecordNamed":
+		return rnstypes.NewMsgAddRecord(x, p[2], "exp", x, `{"rec":"`+p[1]+`"}`)
 	case "DelRecord":
 		return rnstypes.NewMsgDelRecord(x, "sub."+p[2])
 	}
